@@ -281,7 +281,7 @@ func oracleC01(x *Exec, so *StepObs) {
 						isDep = true
 					}
 				}
-				if !isDep && rm > k {
+				if !isDep && rm > k && !recordCallRefused(x, r, k) {
 					x.Violate(Violation{P, "I6a-oldest-first", opName, cause, fmt.Sprintf("revision %d removed while older revision %d was kept (limit %d): %s -> %s", rm, k, op.MaxHistory, before.Summary(), after.Summary()), so.Index})
 					return
 				}
@@ -362,6 +362,19 @@ func oracleC01(x *Exec, so *StepObs) {
 			return
 		}
 	}
+}
+
+// recordCallRefused: during this operation the cluster refused (or a fault hit) a call on the
+// record of the given revision. Pruning deletes oldest-first but carries on after a failed
+// delete, so an older revision whose own delete was refused legitimately survives a newer one.
+func recordCallRefused(x *Exec, r *OpResult, rev int) bool {
+	name := fmt.Sprintf("sh.helm.release.v1.%s.v%d", x.Plan.Release, rev)
+	for _, q := range r.Reqs {
+		if q.ID != nil && q.ID.Name == name && (q.Fault != "" || !accepted(q)) {
+			return true
+		}
+	}
+	return false
 }
 
 func normJSON(v interface{}) interface{} {
